@@ -966,6 +966,32 @@ impl Scenario for C17Extremes {
     fn execute(&self, cfg: &Cfg, acts: &[Act], st: &mut RunStats) -> Result<(), Violation> {
         st.probe(&format!("extreme_{}_{}", cfg.fam, cfg.a));
         lib_call("public helpers and constructors with in-range arguments", || misc_public_surface(cfg))?.map_err(|e| Violation::new("C17.public_surface", e))?;
+        if cfg.fam == "theta" {
+            // ThetaSketchBuilder::seed documents no excluded value, but one seed in 65536 hashes to a
+            // 16-bit seed hash of zero, which compute_seed_hash refuses with a panic (CPC documents
+            // this precondition on its constructors; theta does not). The panic is reported under
+            // its own class so that any other panic at the same site stays a fresh violation.
+            let mut bad = cfg.seed & 0xffff_ffff;
+            while crate::refhash::seed_hash(bad) != 0 {
+                bad += 1;
+            }
+            let r = lib_call("theta sketch with a seed whose seed hash is zero", || {
+                let mut t = ThetaSketch::builder().lg_k(5).seed(bad).build();
+                for i in 0..40u64 {
+                    t.update(i);
+                }
+                let _ = (t.estimate(), t.num_retained());
+                let c = t.compact(true);
+                let _ = c.serialize();
+            });
+            if let Err(v) = r {
+                if v.invariant.contains("hash/mod.rs") && v.invariant.contains("seed_hash") {
+                    st.record(Violation::new("C17.theta_seed_with_zero_seed_hash_panics", format!("ThetaSketch::builder().seed({bad}) builds and updates, then panics: {}", v.detail)));
+                } else {
+                    return Err(v);
+                }
+            }
+        }
         C11.execute(cfg, acts, st)
     }
     fn shrink_action(&self, a: &Act) -> Vec<Act> {
